@@ -95,6 +95,9 @@ class Prop:
             cs.append(Case('rep %d enumrule %s' % (reps, hx(e)), 'enum-rule'))
         for r in samples.REGEXES + ['/[/', 'x', '/a|b/']:
             cs.append(Case('rep %d regex %s' % (reps, hx(r)), 'regex'))
+        # one regex object asked several times, and registered as the type of several schemas
+        for r in samples.REGEXES + ['/[/', 'x', '/a|b/', '/[a-z]{1,5}\\d?x*/', '/(ab|cd)+[0-9]{2,4}/', '/x*/']:
+            cs.append(Case('regexagain %s' % hx(r), 'regex-object-reuse'))
         for j in samples.JSONS + ['{"a":', '[1 2]', '1.']:
             for a in '01':
                 cs.append(Case('rep %d json %s %s' % (reps, a, hx(j)), 'json'))
@@ -123,6 +126,8 @@ class Prop:
         return True
 
     def oracle(self, case, out):
+        if out.startswith('DIFF'):
+            return 'one regex schema object gives different answers when asked again (or registered again): ' + out[:300]
         if out.startswith('NONDET'):
             return 'different answers for the same input within one process: ' + out[:400]
         if out.startswith('PROCDIFF'):
